@@ -360,7 +360,7 @@ func (ex *Exec) applyContractSig(fr *Frame, ins ssa.Instruction, c *Contract, fn
 			for j, a := range args {
 				cenv.vars[fmt.Sprintf("$%d", j)] = a
 			}
-			ex.oblige("callsite", ex.siteOf(ins, fmt.Sprintf("%s:%03d", cname, i)), ins.Pos(), "at every call of "+cname+": "+cs.Text, ex.evalBool(cs.E, cenv))
+			ex.oblige("callsite", ex.siteOf(ins, fmt.Sprintf("%s:%03d", cname, i)), ins.Pos(), "at every call of "+cname+": "+cs.Text, ex.softBool(cs.E, cenv))
 		}
 	}
 	for i, rq := range c.Requires {
